@@ -1529,6 +1529,10 @@ func (x *tr) effectCall(c *ast.CallExpr, cs callSpec, lhs []string, n ast.Node, 
 	amark := len(x.pending)
 	args := make([]string, len(c.Args))
 	for i, a := range c.Args {
+		if cs.lazy && !strings.Contains(cs.ev+cs.res+cs.state, fmt.Sprintf("%%%d", i)) {
+			x.notes = append(x.notes, "argument not kept by the model (declared): "+clip(src(a)))
+			continue // a lazy declaration: the arguments its rendering does not mention feed something the model does not keep
+		}
 		args[i] = x.expr(a) // every argument must be in the fragment, also the ones the rendering drops
 	}
 	if len(x.pending) > amark {
@@ -1907,7 +1911,18 @@ func (x *tr) seq(stmts []ast.Stmt, k func() string) string {
 						if after := tail(); after != x.t.final {
 							x.bad(z, "call declared as a tail call is followed by more work")
 						}
-						return "(" + cs.tail + " " + strings.Join(x.t.effects, " ") + ")"
+						head := cs.tail
+						if strings.Contains(head, "%") {
+							// the constructor takes arguments of the call (os.Exit(code)): they must be free of partial operations
+							mark := len(x.pending)
+							var args []string
+							for _, a := range c.Args {
+								args = append(args, x.expr(a))
+							}
+							x.noPending(mark, c)
+							head = x.fillWith(head, c, args)
+						}
+						return "(" + head + " " + strings.Join(x.t.effects, " ") + ")"
 					}
 					return x.effectCall(c, cs, nil, z, tail)
 				}
